@@ -32,20 +32,24 @@ def collect_bigsums(t, acc, seen):
 
 
 def has_free_vars(t):
-    seen = set()
-    stack = [t]
-    while stack:
-        x = stack.pop()
-        if x.get_id() in seen:
-            continue
-        seen.add(x.get_id())
+    """Does t contain a de Bruijn variable bound OUTSIDE t (t sits under a quantifier / lambda of the formula)?"""
+    memo = {}
+
+    def go(x, depth):
+        key = (x.get_id(), depth)
+        if key in memo:
+            return memo[key]
         if z3.is_var(x):
-            return True
-        if z3.is_quantifier(x):
-            continue  # de Bruijn indices inside belong to that quantifier (approximation: skip)
-        if z3.is_app(x):
-            stack.extend(x.children())
-    return False
+            r = z3.get_var_index(x) >= depth
+        elif z3.is_quantifier(x):
+            r = go(x.body(), depth + x.num_vars())
+        elif z3.is_app(x):
+            r = any(go(c, depth) for c in x.children())
+        else:
+            r = False
+        memo[key] = r
+        return r
+    return go(t, 0)
 
 
 def abstract_quantifiers(ts):
@@ -175,14 +179,26 @@ def is_zero_sum(a, hyps, timeout_ms, depth=0):
     return valid(hyps, body == zero_of(a.sort()), timeout_ms, fast_reject=True)
 
 
-def abstract(goal, hyps, timeout_ms=3000, depth=0, zeros=False):
-    """Replace provably equal outermost sums in `goal` by common fresh constants (and all-zero sums by 0)."""
+def abstract(goal, hyps, timeout_ms=3000, depth=0, zeros=False, cross=False):
+    """Replace provably equal outermost sums in `goal` by common fresh constants (and all-zero sums by 0).
+    With cross=True closed sums of the hypotheses are candidates too (a sum computed by the code, which sits in
+    a path condition, against the sum written in the contract); only goal/goal and goal/hypothesis pairs are
+    compared and the substitution is applied to the goal and to every hypothesis alike. Sound: the replaced
+    terms are closed and provably equal under `hyps`, the constant is fresh."""
     sums = []
-    collect_bigsums(goal, sums, set())
+    seen = set()
+    collect_bigsums(goal, sums, seen)
     sums = [s for s in sums if not has_free_vars(s)]
-    zs = [(s, zero_of(s.sort())) for s in sums if zeros and is_zero_sum(s, hyps, min(timeout_ms, 3000), depth)]
+    n_goal = len(sums)
+    if cross and n_goal:
+        more = []
+        for h in hyps:
+            collect_bigsums(h, more, seen)
+        sums += [s for s in more if not has_free_vars(s) and not any(s.eq(x) for x in sums)]
+    zs = [(s, zero_of(s.sort())) for s in sums[:n_goal] if zeros and is_zero_sum(s, hyps, min(timeout_ms, 3000), depth)]
     if zs:
         goal = z3.substitute(goal, *zs)
+        n_goal -= len(zs)
         sums = [s for s in sums if not any(s.eq(z) for z, _ in zs)]
     if len(sums) < 2:
         return goal, hyps
@@ -196,7 +212,7 @@ def abstract(goal, hyps, timeout_ms=3000, depth=0, zeros=False):
         return i
     for i in range(len(sums)):
         for j in range(i + 1, len(sums)):
-            if find(i) == find(j):
+            if find(i) == find(j) or i >= n_goal:
                 continue
             if sums[i].decl().eq(sums[j].decl()) and equal_sums(sums[i], sums[j], hyps, timeout_ms, depth):
                 parent[find(j)] = find(i)
@@ -207,6 +223,8 @@ def abstract(goal, hyps, timeout_ms=3000, depth=0, zeros=False):
         if r not in reps:
             reps[r] = z3.Const(f"sum!{next(_counter)}", s.sort())
         subs.append((s, reps[r]))
+    if cross:
+        return z3.substitute(goal, *subs), [z3.substitute(h, *subs) for h in hyps]
     return z3.substitute(goal, *subs), hyps
 
 
@@ -236,4 +254,8 @@ def prove_with_congruence(hyps, goal, timeout_ms=5000):
         return True
     # second attempt: sums whose summands are all provably 0 (false guard under the hypotheses) are 0
     g3, h3 = abstract(g, h2, min(timeout_ms, 8000), zeros=True)
-    return valid(h3, g3, timeout_ms)
+    if valid(h3, g3, timeout_ms):
+        return True
+    # third attempt (only reached when the obligation would otherwise stay undecided): sums of the hypotheses
+    g4, h4 = abstract(g, h2, min(timeout_ms, 8000), cross=True)
+    return (h4 is not h2) and valid(h4, g4, timeout_ms)
